@@ -161,7 +161,11 @@ class Unit:
         if nloops is None:
             nloops = 0
         body = self._post(body, where, rules, True, ret_zero, loops, nloops, witness, classmap, fname=_c_name(new_header))
-        out = new_header.rstrip() + '\n' + body + '\n'
+        # a cut-out block is an additional decomposition with a fixed parameter list: when an edit makes the block use a new local of
+        # the enclosing function the cut no longer compiles on its own.  It is guarded so that the rest of the unit still does
+        # (vf/pipeline.py defines VERIF_NO_CUT_<name> after reading the compiler's message)
+        cname = _c_name(new_header)
+        out = '#ifndef VERIF_NO_CUT_%s\n' % cname + new_header.rstrip() + '\n' + body + '\n#endif /* VERIF_NO_CUT_%s */\n' % cname
         self.functions.append({'file': rel, 'cxx_header': ' '.join((func_sig_regex + ' :: ' + header).split()),
                                'c_header': ' '.join(new_header.split()),
                                'line': text.count('\n', 0, fs + s) + 1})
